@@ -417,29 +417,33 @@ def processTransaction (pol : Policy) (c : Chain) (s : Pool) (t : TxAbs) (allowO
 
 /-! ### chain view updates -/
 
+def outsOf (h : Nat) (cb : Bool) (t : TxAbs) : List Utxo :=
+  (List.range t.nOuts).map (fun i => ⟨⟨t.id, i⟩, h, cb⟩)
+
+def applyTx (h : Nat) (cb : Bool) (u : List Utxo) (t : TxAbs) : List Utxo :=
+  (u.filter (fun e => e.op ∉ t.ins)) ++ outsOf h cb t
+
 def blockTxsValid : List Utxo → List TxAbs → Bool
   | _, [] => true
   | u, t :: rest =>
     decide t.ins.Nodup && t.ins.all (fun x => u.any (fun e => e.op = x)) && !t.coinbase &&
-    blockTxsValid ((u.filter (fun e => e.op ∉ t.ins)) ++ (List.range t.nOuts).map (fun i => ⟨⟨t.id, i⟩, 0, false⟩)) rest
+    blockTxsValid (applyTx 0 false u t) rest
 
-def applyTx (h : Nat) (cb : Bool) (u : List Utxo) (t : TxAbs) : List Utxo :=
-  (u.filter (fun e => e.op ∉ t.ins)) ++ (List.range t.nOuts).map (fun i => ⟨⟨t.id, i⟩, h, cb⟩)
+def isOutputOf (x : OutPoint) (t : TxAbs) : Bool := x.txid = t.id && x.idx < t.nOuts
 
 def Chain.connect (c : Chain) (b : Block) : Chain :=
   let h := c.height + 1
   let spentIns := b.txs.flatMap (·.ins)
   let u1 := b.txs.foldl (applyTx h false) c.utxo
   let undo := c.utxo.filter (fun e => e.op ∈ spentIns)
-  { c with utxo := applyTx h true u1 b.cb, height := h, mtp := b.mtp,
+  { c with utxo := u1 ++ outsOf h true b.cb, height := h, mtp := b.mtp,
            stack := ⟨b, undo, c.mtp⟩ :: c.stack }
 
 def Chain.disconnect (c : Chain) : Option (Chain × Block) :=
   match c.stack with
   | [] => none
   | r :: rest =>
-    let created := (r.blk.cb :: r.blk.txs).map (·.id)
-    let u := (c.utxo.filter (fun e => e.op.txid ∉ created)) ++ r.undo
+    let u := (c.utxo.filter (fun e => !(r.blk.cb :: r.blk.txs).any (isOutputOf e.op))) ++ r.undo
     some ({ c with utxo := u, height := c.height - 1, mtp := r.prevMtp, stack := rest }, r.blk)
 
 /-- the `NTBlockConnected` branch, per transaction. -/
